@@ -996,6 +996,7 @@ class Emitter:
             return sig, self.dispatcher_body(cs[0], cname)
         self.hoisting = None; self.hoist_depth = 0
         body = self.st(cs[0], 0)
+        self.loop_counts = getattr(self, 'loop_counts', {}); self.loop_counts[cname] = self.loopn
         return sig, body
 
     def dispatcher_body(self, cs, cname):
